@@ -345,6 +345,30 @@ class SepEnv(symx.Env):
                 if isinstance(v, symx.Mask):
                     self.se._alls = getattr(self.se, "_alls", 0) + 1
                     return sp.And(v.cond, sp.Symbol("ALL_OTHER_ELEMENTS_%d" % self.se._alls))
+        # whole-array comparisons: np.array_equal(a, b) / np.array_equiv(a, b) is `(a == b).all()` (and the shapes agree, which
+        # only narrows it further), np.allclose(a, b, ..) is `np.isclose(a, b, ..).all()`: this pair satisfies the element-wise
+        # condition and so do all the others
+        if isinstance(t, ast.Call) and len(t.args) >= 2 and not any(isinstance(a, ast.Starred) for a in t.args):
+            d = dotted_name(t.func)
+            full = self.se.repo.resolve_name(self.mod, d) if d and not self._shadowed(d.split(".")[0]) else ""
+            elem = None
+            if full in ("numpy.array_equal", "numpy.array_equiv") and len(t.args) == 2 and (
+                    not t.keywords or (full == "numpy.array_equal" and len(t.keywords) == 1 and t.keywords[0].arg == "equal_nan"
+                                       and isinstance(t.keywords[0].value, ast.Constant) and t.keywords[0].value.value is False)):
+                elem = ast.copy_location(ast.Compare(left=t.args[0], ops=[ast.Eq()], comparators=[t.args[1]]), t)
+            elif full == "numpy.allclose" and len(t.args) <= 4 and all(k.arg in ("rtol", "atol", "equal_nan") for k in t.keywords):
+                node = self._callee_expr("numpy.isclose")
+                if node is not None:
+                    elem = ast.copy_location(ast.Call(func=ast.copy_location(node, t.func), args=t.args, keywords=t.keywords), t)
+            if elem is not None:
+                ast.fix_missing_locations(elem)
+                try:
+                    v = self.ev(elem)
+                except symx.Unsupported:
+                    v = None
+                if isinstance(v, symx.Mask):
+                    self.se._alls = getattr(self.se, "_alls", 0) + 1
+                    return sp.And(v.cond, sp.Symbol("ALL_OTHER_ELEMENTS_%d" % self.se._alls))
         return symx.Env.truth(self, t)
 
     # ---- element-wise conditions: the spellings of boolean algebra on masks --------------------------------------------------
@@ -455,6 +479,13 @@ class SepEnv(symx.Env):
             handled, r = self._mask_call(full, c)
             if handled:
                 return r
+            if full in ("numpy.atleast_1d", "numpy.atleast_2d", "numpy.atleast_3d", "numpy.broadcast_arrays") and len(c.args) > 1 and not c.keywords:
+                # several arrays normalised in one call: the sequence of the results, each the value of its argument (the term domain
+                # is element-wise: shape normalisation and broadcasting do not change an element)
+                vals = [self.ev(a) for a in c.args]
+                if all(symx._is_expr(v) for v in vals):
+                    return tuple(vals)
+                raise symx.Unsupported("symx: call `%s` at %s" % (norm(c)[:60], self.where(c)))
             if full in ("numpy.nonzero", "numpy.flatnonzero") and len(c.args) == 1 and not c.keywords:
                 m = self.ev(c.args[0])
                 return m if isinstance(m, symx.Mask) else symx.Opaque(full)
@@ -577,6 +608,8 @@ class SepEval(symx.SymEval):
 
     def run(self, fi, args, flags=None, depth=0, pins=None):
         flags = dict(flags or {})
+        if depth == 0:
+            self._alls = 0          # the whole-array unknowns are numbered per evaluation: two evaluations of one function agree
         env = SepEnv(self, fi, fi.module, dict(args), flags, depth=depth)
         env.pins = dict(pins or {})
         for p in fi.params:
@@ -1186,7 +1219,10 @@ def forced_zero_rule(chk, fi, tag, lv, syms, uin):
         if pin_ra and pin_dec:
             ok = True
         else:
-            fam = _distinct_pairs_selected(sp.And(*atoms), syms, half)
+            # `all the other elements too` unknowns (a whole-array test) hold in a call with this one pair: they exclude no pair
+            cond_ = sp.And(*atoms)
+            cond_ = cond_.xreplace({a: sp.true for a in cond_.atoms(sp.Symbol) if a.name.startswith("ALL_OTHER_ELEMENTS_")})
+            fam = _distinct_pairs_selected(cond_, syms, half)
             ok = False if fam is not None else None
             missing = " and ".join(w for w, p in (("the longitudes", pin_ra), ("the latitudes", pin_dec)) if not p)
             why = ("; no equality of the condition pins %s to each other" % missing) + (
@@ -1198,6 +1234,28 @@ def forced_zero_rule(chk, fi, tag, lv, syms, uin):
                "a piece of the result that is the constant 0 is selected only when the two points are identical: the piece selected by `%s`%s"
                % (str(sp.And(*atoms))[:200], why))
     return loose
+
+
+def per_pair_zero_rule(chk, fi, tag, lv, zero, syms):
+    """R08.10 (second half): "exactly zero for identical inputs" and "the same for scalar and array inputs" are owed to every pair
+    of the call on its own.  A piece that is the constant 0 and is selected by `this pair is identical AND <a condition on the other
+    elements of the arrays>` (np.array_equal, (a == b).all(), np.allclose: a whole-array test) forces the zero only in calls where the
+    other pairs cooperate; it is a legitimate fast path only next to an override that is selected by the pair's own coordinates.  When
+    the decision list has such a whole-array zero and no per-pair one, an identical pair inside an array with one distinct pair gets the
+    rounded formula value (acos of 1 - ulp ~ 1.5e-8 rad) while the same pair passed as scalars gets 0: a violation, positively
+    identified (the whole-array unknown is part of the selecting condition of every forced zero)."""
+    whole = [path[-1][0] for v, path in lv if v == 0 and path and path[-1][1] and _implies_identity(path[-1][0], syms)
+             and any(isinstance(a, sp.Symbol) and a.name.startswith("ALL_OTHER_ELEMENTS_") for a in path[-1][0].args)]
+    if not whole:
+        return
+    chk.ob("R08.10", "%s::exact-zero-decided-per-pair" % tag, bool(zero), fi.where(),
+           "the exact zero for identical inputs is decided for each pair on its own coordinates: the result is forced to 0 under the "
+           "whole-array condition `%s`%s" % (
+               str(whole[0])[:200],
+               " next to a per-pair override (a fast path)" if zero else
+               " only -- identical pairs are forced to 0 only when every other pair of the call is identical too; in an array that also "
+               "holds one distinct pair they keep the rounded formula value (~1e-8 rad for one point in six) and differ from the scalar "
+               "call on the same pair; select the zero with the element-wise mask (ra1 == ra2) & (dec1 == dec2)"))
 
 
 def _as_clip(e):
@@ -1398,6 +1456,7 @@ def check_chord(chk, fi, tag, r, syms, uin, uout):
     # a boolean mask or an index array, does not matter.
     loose = forced_zero_rule(chk, fi, tag, lv, syms, uin)
     zero, rest = split_identity(drop_shortcuts(lv, syms), syms, loose)
+    per_pair_zero_rule(chk, fi, tag, lv, zero, syms)
     chk.ob("R08.3", tag + "::exact-zero-for-identical-inputs", len(zero) >= 1, fi.where(),
            "identical inputs give exactly 0 (override piece: %s)" % (zero[0][2][-1][0] if zero else "MISSING"))
     if zero:
@@ -1485,6 +1544,7 @@ def check_cosine(chk, fi, r, syms):
         return
     loose = forced_zero_rule(chk, fi, tag, lv, syms, "deg")
     zero, rest = split_identity(drop_shortcuts(lv, syms), syms, loose)
+    per_pair_zero_rule(chk, fi, tag, lv, zero, syms)
     ok = len(zero) >= 1 and _has_priority(zero[0], syms)
     chk.ob("R08.3", tag + "::exact-zero-for-identical-inputs", ok, fi.where(), "identical inputs give exactly 0 (override piece: %s)" % (zero[0][2][-1][0] if zero else "MISSING"))
     if len(rest) != 1 or rest[0][1]:
@@ -1621,6 +1681,12 @@ _DT_SEQ = {"stack", "vstack", "hstack", "dstack", "concatenate", "column_stack"}
 _DT_KEEP_METHODS = {"copy", "ravel", "flatten", "reshape", "squeeze", "transpose", "clip", "conj", "round", "sum", "min", "max", "cumsum",
                     "take", "compress", "repeat", "swapaxes"}
 _NOCONST = object()
+
+
+class _DtName(str):
+    """the class of the dtype domain a dtype object (np.dtype(..)) belongs to, as a name dtype_of() reads; not a python string of
+    the program: comparisons with it are not decided"""
+
 _REPORTED = "<result of a reported operation>"
 
 
@@ -1753,7 +1819,7 @@ class DtypeEval:
                 return r if isinstance(op, ast.In) else not r
             if a.const is _NOCONST or b.const is _NOCONST:
                 return None
-            if isinstance(a.const, float) or isinstance(b.const, float):
+            if isinstance(a.const, (float, _DtName)) or isinstance(b.const, (float, _DtName)):
                 return None
             if isinstance(op, (ast.Eq, ast.Is)):
                 return type(a.const) is type(b.const) and a.const == b.const
@@ -2070,6 +2136,11 @@ class DtypeEval:
                 return self._converted(args[0], dtn, env, fi)
             if nm in ("atleast_1d", "atleast_2d", "atleast_3d") and len(args) > 1:
                 return _D(elts=[self._as_array(a) for a in args])
+            if nm == "dtype" and len(c.args) == 1 and not c.keywords:
+                # a dtype object made from a dtype expression names the same dtype wherever a dtype is expected (np.dtype(None) is
+                # float64); held in a local it is looked up as the string that names its class of the domain
+                dt = self.dtype_of(c.args[0], env, fi)
+                return _D(const=_DtName({"F64": "f8", "ABSENT": "f8", "LOW": "f4"}[dt])) if dt in ("F64", "ABSENT", "LOW") else _DUNK
             if nm in _DT_KEEP and args:
                 if kwarg(c, "dtype") is not None:
                     return self._converted(args[0], kwarg(c, "dtype"), env, fi)
@@ -2610,6 +2681,11 @@ class RankEval:
                 k = int(nm[8])
                 nd = _as_array_nd(pos[0])
                 return _V(k if nd is None else max(k, nd), pos[0].mask)
+            if nm in ("atleast_1d", "atleast_2d", "atleast_3d") and len(pos) > 1 and len(pos) == len(c.args) and not c.keywords:
+                # several arguments: the sequence of the normalised arrays, one per argument
+                k = int(nm[8])
+                nds = [_as_array_nd(p) for p in pos]
+                return _V(None, elts=[_V(k if nd is None else max(k, nd), p.mask and p.elts is None) for nd, p in zip(nds, pos)])
             if nm in _CONVERT and pos:
                 nd = _as_array_nd(pos[0])
                 ndmin = kwarg(c, "ndmin")
